@@ -154,7 +154,8 @@ def _mat_op(name, sig):
             elif c == 'R':
                 ts.append(_as_real(eng, st, a))
             elif c == 'I':
-                ts.append(eng.as_int(a, st))
+                from .values import KRef as _KR, KNone as _KN
+                ts.append(a.term if (isinstance(a.kind, _KR) or a.kind == _KN) else eng.as_int(a, st))
             else:
                 ts.append(a.term)
         f = T.mf(name, *[sorts[c] for c in sig])
@@ -242,3 +243,112 @@ def _eye(eng, st, args, kwargs):
     from . import tensors as T
     _, syms = TH.groups()
     return V(T.KMat, syms['eye']())
+
+
+# ---- communication / futures (spec level)
+@spec('awaited')
+def _awaited(eng, st, args, kwargs):
+    """The tensor a field of kind Tensor|Future|None stands for once pending futures are awaited."""
+    from . import tensors as T
+    (x,) = args
+    isf = eng.isinstance_term(st, x, 'Future')
+    wb = eng.read_field(st, V(T.KRef('Future'), x.term), 'will_be', cls='Future') if True else None
+    return V(T.KRef('Tensor'), z3.If(isf, wb.term, x.term))
+
+
+@spec('group_size')
+def _group_size(eng, st, args, kwargs):
+    from .values import IntV
+    (g,) = args
+    return IntV(eng.D.gsize(eng, st, g))
+
+
+@spec('in_group')
+def _in_group(eng, st, args, kwargs):
+    (g,) = args
+    return BoolV(eng.D.is_member(eng, st, g))
+
+
+@spec('rank_in_group')
+def _rank_in_group(eng, st, args, kwargs):
+    r, g = args
+    return BoolV(z3.Select(eng.D.members(eng, st, g), eng.as_int(r, st)))
+
+
+@spec('my_rank')
+def _my_rank(eng, st, args, kwargs):
+    from .values import IntV
+    eng.D.base_facts(eng)
+    return IntV(eng.D.rank(eng, st))
+
+
+@spec('world_size')
+def _world_size(eng, st, args, kwargs):
+    from .values import IntV
+    eng.D.base_facts(eng)
+    return IntV(eng.D.world(eng, st))
+
+
+@spec('dist_initialized')
+def _dist_initialized(eng, st, args, kwargs):
+    eng.D.base_facts(eng)
+    return BoolV(eng.D.initialized(eng, st))
+
+
+@spec('trace')
+def _trace(eng, st, args, kwargs):
+    return eng.ghost_get(st, 'trace', eng.D.KTrace)
+
+
+@spec('event')
+def _event(eng, st, args, kwargs):
+    from .values import TupV, IntV, coerce, KRef as _KRef
+    kind, g, root, n, dt = args
+    return TupV([IntV(eng.as_int(kind, st)), coerce(g, _KRef('ProcessGroup')), IntV(eng.as_int(root, st)),
+                 IntV(eng.as_int(n, st)), V(eng.D.KEvent.items[4], coerce(dt, _KRef('dtype')).term if dt.kind != eng.D.KEvent.items[4] else dt.term)])
+
+
+for _n, _s in [('triu', 'MM'), ('filltriu', 'LMM'), ('bcast', 'IIIM')]:
+    _mat_op(_n, _s)
+
+
+def _helper_fn(name):
+    @spec(name)
+    def fn(eng, st, args, kwargs, name=name):
+        from . import tensors as T
+        h, v, sh = args
+        f = T.mf(name, z3.IntSort(), T.M, T.LS, T.M)
+        return V(T.KMat, f(h.term, _as_mat(eng, st, v), sh.term))
+    return fn
+
+
+_helper_fn('helper_a_factor')
+_helper_fn('helper_g_factor')
+
+
+@spec('bytes_of')
+def _bytes_of(eng, st, args, kwargs):
+    """nelement * element_size of a tensor (0 for None)."""
+    from . import tensors as T
+    from .values import IntV
+    (t,) = args
+    tt = V(T.KRef('Tensor'), t.term)
+    n = T.numel(eng, T.tf(eng, st, tt, 'shape').term) * T.esize(T.tf(eng, st, tt, 'dtype').term)
+    return IntV(z3.If(t.term == 0, 0, n))
+
+
+@spec('combined_grad')
+def _combined_grad(eng, st, args, kwargs):
+    """Combined (weight | bias) gradient matrix a module helper builds from the module's current gradients."""
+    from . import tensors as T
+    (h,) = args
+    mod = eng.read_field(st, h, 'module', cls='ModuleHelper')
+    w = eng.read_field(st, mod, 'weight', cls='Module')
+    b = eng.read_field(st, mod, 'bias', cls='Module')
+    wg = eng.read_field(st, w, 'grad', cls='Tensor')
+    wv = T.tv(eng, st, wg)
+    wsh = T.tf(eng, st, wg, 'shape').term
+    bg = eng.read_field(st, V(T.KRef('Tensor'), z3.If(b.term == 0, w.term, b.term)), 'grad', cls='Tensor')
+    bv = T.tv(eng, st, V(T.KRef('Tensor'), z3.If(bg.term == 0, wg.term, bg.term)))
+    f = T.mf('combined', z3.IntSort(), T.M, T.LS, z3.BoolSort(), T.M, T.M)
+    return V(T.KMat, f(eng.class_of(st, h), wv, wsh, b.term != 0, z3.If(b.term != 0, bv, wv)))
